@@ -1145,3 +1145,35 @@ def check_L1b(ctx, rep):
                      loc=cr.loc(writes[0]))
     if n < 3:
         raise Broken('L1b: only %d shared-reference functions touching a DashMap found in the concurrent index types' % n)
+
+
+# ------------------------------------------------------------------ L35
+
+def check_L35(ctx, rep):
+    """the slots of the concurrent index types are mutated under their lock: `data_ptr()` of a lock is used to *read* frozen data
+    (`&*v.data_ptr()`, `.as_ref()`), never to obtain a `&mut` - two workers that share a slot (the worker index is reduced modulo the
+    slot count, and threads outside the pool all use slot 0) would push into one Vec at the same time."""
+    cr = ctx.lib('ascent')
+    n = 0
+    for path, b in sorted(cr.bodies.items()):
+        if not any(m in path for m in ('c_rel_index', 'c_rel_full_index', 'c_lat_index', 'c_rel_no_index')) or b['name'].startswith('test'):
+            continue
+        for x, parents in walk(b['tree']):
+            if x.get('k') != 'mcall' or x['m'] != 'data_ptr':
+                continue
+            n += 1
+            # how is the raw pointer used: `&mut *p` / `p.as_mut()` = mutable access without the lock
+            mut_use = None
+            for p_ in reversed(parents[-4:]):
+                if p_.get('k') == 'addr' and p_.get('mut'):
+                    mut_use = '&mut *..data_ptr()'
+                if p_.get('k') == 'mcall' and p_['m'] in ('as_mut', 'as_mut_unchecked', 'write', 'replace'):
+                    mut_use = '.data_ptr().%s()' % p_['m']
+            rep.inst('L35', '%s: data_ptr() used for %s' % (path, mut_use or 'reading'))
+            rep.functions.add(path)
+            if mut_use:
+                rep.viol('L35', path, 'unlocked-mutation',
+                         'lock-protected data is mutated through the raw pointer of its lock (%s) instead of under the lock: workers that '
+                         'share the slot race on it and insertions are lost' % mut_use, loc=cr.loc(x))
+    if n < 2:
+        raise Broken('L35: fewer than 2 data_ptr() uses found in the concurrent index types (anchor lost?)')
